@@ -48,51 +48,64 @@ def inboundFlowControlChangeFromSettings (old new : Int) : CM Unit := fun c =>
 def findChange (changes : List (Int × Option Int × Int)) (k : Nat) : Option (Option Int × Int) :=
   (changes.find? fun e => e.1 == (k : Int)).map (·.2)
 
+/-- the INITIAL_WINDOW_SIZE part of `_acknowledge_settings` -/
+def remoteWindowChange (changes : List (Int × Option Int × Int)) : CM Unit :=
+  match findChange changes SettingCodes.INITIAL_WINDOW_SIZE with
+  | some (old, new) =>
+    (match old with
+     | some o => flowControlChangeFromSettings o new
+     | none => raise (.py .TypeError))
+  | none => pure ()
+
+/-- the HEADER_TABLE_SIZE and MAX_FRAME_SIZE parts of `_acknowledge_settings` (plain assignments) -/
+def remoteOtherChanges (changes : List (Int × Option Int × Int)) (c : Conn) : Conn :=
+  let c := match findChange changes SettingCodes.HEADER_TABLE_SIZE with
+    | some (_, new) =>
+      if new != c.encTableSize then
+        { c with encTableSize := new, hp := { c.hp with encLog := c.hp.encLog ++ [EncEv.resize new] } } else c
+    | none => c
+  match findChange changes SettingCodes.MAX_FRAME_SIZE with
+  | some (_, new) =>
+    { c with maxOutFrame := new, streams := c.streams.map fun e => (e.1, { e.2 with maxOutFrame := new }) }
+  | none => c
+
 /-- `_acknowledge_settings` (the peer's settings take effect) -/
 def acknowledgeSettings : CM (List Frame) := do
   connInput .SEND_SETTINGS
   let c ← getS
-  let (changes, rs) := Settings.acknowledge c.remoteSettings
-  modifyS (fun c => { c with remoteSettings := rs })
+  modifyS (fun c => { c with remoteSettings := (Settings.acknowledge c.remoteSettings).2 })
+  remoteWindowChange (Settings.acknowledge c.remoteSettings).1
+  modifyS (remoteOtherChanges (Settings.acknowledge c.remoteSettings).1)
+  pure [Frame.settings true []]
+
+/-- the INITIAL_WINDOW_SIZE part of `_local_settings_acked` -/
+def localWindowChange (changes : List (Int × Option Int × Int)) : CM Unit :=
   match findChange changes SettingCodes.INITIAL_WINDOW_SIZE with
   | some (old, new) =>
-    match old with
-    | some o => flowControlChangeFromSettings o new
-    | none => raise (.py .TypeError)
+    (match old with
+     | some o => inboundFlowControlChangeFromSettings o new
+     | none => raise (.py .TypeError))
   | none => pure ()
+
+/-- the MAX_HEADER_LIST_SIZE, MAX_FRAME_SIZE and HEADER_TABLE_SIZE parts of `_local_settings_acked` -/
+def localOtherChanges (changes : List (Int × Option Int × Int)) (c : Conn) : Conn :=
+  let c := match findChange changes SettingCodes.MAX_HEADER_LIST_SIZE with
+    | some (_, new) => { c with decMaxHeaderList := new }
+    | none => c
+  let c := match findChange changes SettingCodes.MAX_FRAME_SIZE with
+    | some (_, new) => { c with maxInFrame := new }
+    | none => c
   match findChange changes SettingCodes.HEADER_TABLE_SIZE with
-  | some (_, new) =>
-    modifyS fun c => if new != c.encTableSize then
-      { c with encTableSize := new, hp := { c.hp with encLog := c.hp.encLog ++ [EncEv.resize new] } } else c
-  | none => pure ()
-  match findChange changes SettingCodes.MAX_FRAME_SIZE with
-  | some (_, new) =>
-    modifyS fun c => { c with maxOutFrame := new,
-                              streams := c.streams.map fun e => (e.1, { e.2 with maxOutFrame := new }) }
-  | none => pure ()
-  pure [Frame.settings true []]
+  | some (_, new) => { c with decMaxTableSize := new }
+  | none => c
 
 /-- `_local_settings_acked` -/
 def localSettingsAcked : CM (List (Int × Option Int × Int)) := do
   let c ← getS
-  let (changes, ls) := Settings.acknowledge c.localSettings
-  modifyS (fun c => { c with localSettings := ls })
-  match findChange changes SettingCodes.INITIAL_WINDOW_SIZE with
-  | some (old, new) =>
-    match old with
-    | some o => inboundFlowControlChangeFromSettings o new
-    | none => raise (.py .TypeError)
-  | none => pure ()
-  match findChange changes SettingCodes.MAX_HEADER_LIST_SIZE with
-  | some (_, new) => modifyS fun c => { c with decMaxHeaderList := new }
-  | none => pure ()
-  match findChange changes SettingCodes.MAX_FRAME_SIZE with
-  | some (_, new) => modifyS fun c => { c with maxInFrame := new }
-  | none => pure ()
-  match findChange changes SettingCodes.HEADER_TABLE_SIZE with
-  | some (_, new) => modifyS fun c => { c with decMaxTableSize := new }
-  | none => pure ()
-  pure changes
+  modifyS (fun c => { c with localSettings := (Settings.acknowledge c.localSettings).2 })
+  localWindowChange (Settings.acknowledge c.localSettings).1
+  modifyS (localOtherChanges (Settings.acknowledge c.localSettings).1)
+  pure (Settings.acknowledge c.localSettings).1
 
 /-- `_receive_settings_frame`; also used by the h2c upgrade with the decoded HTTP2-Settings -/
 def receiveSettingsFrame (ack : Bool) (items : List (Int × Int)) : CM FE := do
@@ -120,12 +133,8 @@ def setPriorityUpdated : List Event → List Event
   | .Headers k s h se _ :: rest => .Headers k s h se true :: rest
   | es => es
 
-def receiveHeadersFrame (sid : Int) (block : Bytes) (endStream : Bool) (prio : Option Prio) : CM FE := do
-  let c ← getS
-  if !hasStream c sid then
-    let maxOpen := c.localSettings.maxConcurrentStreams
-    let n ← openInboundStreams
-    if n + 1 > maxOpen then raise (mkExc .TooManyStreamsError)
+/-- `_receive_headers_frame` after the concurrency check -/
+def receiveHeadersRest (sid : Int) (block : Bytes) (endStream : Bool) (prio : Option Prio) : CM FE := do
   let headers ← decodeHeaders block
   connInput .RECV_HEADERS
   let c ← getS
@@ -138,6 +147,14 @@ def receiveHeadersFrame (sid : Int) (block : Bytes) (endStream : Bool) (prio : O
     pure (frames, setPriorityUpdated streamEvents ++ pEvents)
   | none => pure (frames, streamEvents)
 
+def receiveHeadersFrame (sid : Int) (block : Bytes) (endStream : Bool) (prio : Option Prio) : CM FE := do
+  let c ← getS
+  if !hasStream c sid then
+    let maxOpen := c.localSettings.maxConcurrentStreams
+    let n ← openInboundStreams
+    if n + 1 > maxOpen then raise (mkExc .TooManyStreamsError)
+  receiveHeadersRest sid block endStream prio
+
 /-- `_refuse_pushed_stream` -/
 def refusePushedStream (promised : Int) : CM Frame := do
   modifyS fun c =>
@@ -146,23 +163,8 @@ def refusePushedStream (promised : Int) : CM Frame := do
     else c
   pure (Frame.rstStream promised ErrorCodes.REFUSED_STREAM)
 
-def receivePushPromiseFrame (sid promised : Int) (block : Bytes) : CM FE := do
-  let c ← getS
-  match c.localSettings.enablePush with
-  | none => raise (.py .KeyError)
-  | some ep =>
-  if ep == 0 then raise pErr else
-  let pushedHeaders ← decodeHeaders block
-  connInput .RECV_PUSH_PROMISE
-  let found ← tryCatch (do getStreamById sid; pure true)
-    (fun e => e.isInstance .NoSuchStreamError) (fun _ => pure false)
-  if !found then
-    let c ← getS
-    if streamClosedBy c sid == some .SEND_RST_STREAM then
-      let f ← refusePushedStream promised
-      pure ([f], [])
-    else raise pErr
-  else
+/-- `_receive_push_promise_frame` once the parent stream is known to be in the table -/
+def receivePushPromiseKnown (sid promised : Int) (pushedHeaders : List Header) : CM FE := do
   if sid % 2 == 0 then raise pErr else
   let c ← getS
   let r ← tryCatch (do
@@ -177,6 +179,27 @@ def receivePushPromiseFrame (sid promised : Int) (block : Bytes) : CM FE := do
     beginNewStream promised false
     let _ ← withStream promised (Stream.remotelyPushed pushedHeaders)
     pure (frames, streamEvents)
+
+/-- `_receive_push_promise_frame` when the parent stream is not in the table -/
+def receivePushPromiseUnknown (sid promised : Int) : CM FE := do
+  let c ← getS
+  if streamClosedBy c sid == some .SEND_RST_STREAM then
+    let f ← refusePushedStream promised
+    pure ([f], [])
+  else raise pErr
+
+def receivePushPromiseFrame (sid promised : Int) (block : Bytes) : CM FE := do
+  let c ← getS
+  match c.localSettings.enablePush with
+  | none => raise (.py .KeyError)
+  | some ep =>
+  if ep == 0 then raise pErr else
+  let pushedHeaders ← decodeHeaders block
+  connInput .RECV_PUSH_PROMISE
+  let found ← tryCatch (do getStreamById sid; pure true)
+    (fun e => e.isInstance .NoSuchStreamError) (fun _ => pure false)
+  if !found then receivePushPromiseUnknown sid promised
+  else receivePushPromiseKnown sid promised pushedHeaders
 
 def receiveDataFrame (sid : Int) (payload : Bytes) (endStream : Bool) (fcl : Int) : CM FE := do
   connInput .RECV_DATA
